@@ -5,4 +5,5 @@ pub mod c09;
 pub mod lemmas;
 pub mod common;
 pub mod c01_units;
+pub mod c04;
 mod playback_gen;
